@@ -94,6 +94,16 @@ Theorem hypotheses_satisfiable : ok_hist_f mux_example_ops.
 Proof. exact mux_example_ok. Qed.
 Print Assumptions hypotheses_satisfiable.
 
+(* the hypothesis about a size change inside a multiplexer is value-based: a follower held by two
+   groups that the push does not reach does not matter (the position-independent condition
+   single_followers fails on this history) *)
+Theorem hypotheses_value_based : ok_hist_f reach_example_ops /\
+  map (fun l => map (fun x => (x, rel (run reach_example_ops) x, sz (run reach_example_ops) x)) l) (ugroups (run reach_example_ops) 0)
+  = ((1%nat, 0, 5) :: (2%nat, 5, 2) :: (3%nat, 8, 2) :: nil) :: ((3%nat, 8, 2) :: nil) :: nil
+  /\ ~ single_followers (run (firstn 7 reach_example_ops)) 1.
+Proof. exact reach_example_all. Qed.
+Print Assumptions hypotheses_value_based.
+
 (* the unconditioned statement is refuted by the faithful model (finding D35) *)
 Theorem groups_wf_full_refuted : ~ groups_wf_full.
 Proof. exact groups_wf_full_false. Qed.
